@@ -3,8 +3,10 @@
   protocol the Rust harness (`cvh`) speaks.  Import-free of Mathlib/Std so it links natively.
 -/
 import ChialispModel.Drv.Base
+import ChialispModel.Drv.Conv
 
 def main (args : List String) : IO UInt32 := do
   match args with
   | ["base"] => Drv.Base.run; return 0
+  | ["conv"] => Drv.Conv.run; return 0
   | _ => IO.eprintln s!"modeld: unknown sub-command {args}"; return 2
